@@ -48,6 +48,10 @@ def global_name(it, name, node=None):
             return ModuleV("math")
         if target == "sciris":
             return ModuleV("sciris")
+        if target in ("ast",):
+            import importlib
+
+            return importlib.import_module(target)  # standard-library module used through concrete objects only
         if isinstance(target, str) and target.endswith(":FrameworkSettings"):
             import atomica.system
 
